@@ -571,3 +571,41 @@ def check_C17(c):
     c.assumptions += ["os.FileMode is logged in structured form (type, permission, special bits): TLC integers are 32 bit",
                       "file-system part runs as root on this kernel/file system; kinds that cannot be created are listed in the evidence"]
     return c.finish()
+
+
+def export_table_cfg(c, module, cfg, name):
+    return export_table(c, module, cfg, name)
+
+
+def check_C06(c):
+    cfg = "WireEnum.quick.cfg" if c.tier == "quick" else "WireEnum.thorough.cfg"
+    scen, cases = export_table(c, "WireEnum", cfg, "scen_wire.json")
+    c.cov["tlc_runs"][-1]["note"] = "theorems Thm_RoundTrip (DecFrame(Enc(p)) = p) and Thm_Length checked on every enumerated packet"
+    rc, out, path = c.run("TestVerif_WireTable", env={"VERIF_SCEN": scen}, timeout=3000)
+    ev = vlib.read_ndjson(path)
+    c.cov["evaluations"] += len(cases)
+    c.cov["distinct_nontrivial"] += len(cases)
+    found = c.validate("TraceWire", "TraceWire.cfg", path)
+    rc, out, path2 = c.run("TestVerif_WireRandom", timeout=3000)
+    ev2 = vlib.read_ndjson(path2)
+    n2 = sum(1 for e in ev2 if e.get("ev") == "WireEnc")
+    c.cov["evaluations"] += n2
+    c.cov["distinct_nontrivial"] += n2
+    found += c.validate("TraceWire", "TraceWire.cfg", path2)
+    c.cov["exhaustive"] = False
+    c.cov["rule"] = ("(B) packets enumerated by WireEnum.tla over boundary domains - ids {0,1,2^31,2^32-1}, offsets, strings (empty, path, non-UTF-8, long), payload lengths, all 32 "
+                     "attribute-flag subsets with small/maximal values, 0-2 extended attributes, 0-3 name entries, the four OpenSSH extensions - each with its reference encoding computed by "
+                     "TLC, replayed into both Go codecs (encode and decode); (A) seeded random packets encoded by both codecs and checked against Enc by TLC")
+    for f in found:
+        e = f["line"]
+        msg = f["state"].get("c06", "").strip('"')
+        detail = ""
+        for k in ("pkgenc", "pkgdec", "fxenc", "fxdec"):
+            if e.get(k) not in ("", "n/a", None):
+                detail = "%s: %s" % (k, e.get(k))
+                break
+        key = "Inv_C06,typ=%s,%s" % (e.get("typ", e.get("t")), detail.split(":")[0] if detail else e.get("ev"))
+        c.violation(key, "%s (%s)" % (msg, detail[:300]), {"module": "TraceWire", "case": {k: v for k, v in e.items() if k not in ("b1", "b2")}, "tlc": msg})
+    c.assumptions += ["equality is established on the enumerated boundary domains and seeded samples, not for all values (layouts are parametric in the values)",
+                      "MKDIR with non-empty attributes and ATTRS replies are only constructible in the filexfer codec (the wire codec builds ATTRS from os.FileInfo)"]
+    return c.finish()
